@@ -15,7 +15,7 @@
    the narrower one, and identical to the stored value otherwise) -- provided the 2^N surrounding values
    are finite at the coordinate precision (0 * inf is NaN in the code as well). *)
 From Coq Require Import ZArith List Bool Reals Ring_theory.
-From Covfie Require Import LinearCore Stack LinearProofs LinearBridge LinearReal FloatOps LinearLattice LinearLatticeFloat LinLang Refine_Linear.
+From Covfie Require Import LinearCore Stack LinearProofs LinearBridge LinearReal FloatOps LinearLattice LinearLatticeFloat LinLang Refine_Linear ClampAbove CellSelect.
 From Covfie.gen Require Import Gen_Linear.
 Import ListNotations.
 
@@ -123,7 +123,17 @@ Theorem C03_model_is_the_layer : forall (ops : sops) (tc tidx tv : sty) (b : que
     forall q, (q < length vs)%nat -> nth q vs 0%Z = snd (model ops tc tidx tv (fun n => nth n valsl []) q (length c <=? 3)%nat c).
 Proof. exact model_is_linear_at. Qed.
 
+(* the cell and the fractions, under IEEE arithmetic: for a finite coordinate component x >= 0 the index the code computes
+   is floor(x), the fraction a = x - std::trunc(x) is computed WITHOUT rounding (it is x - floor(x), in [0,1)), and
+   floor(x) <= x < floor(x) + 1: the weights are built from the true per-axis fractional distances to the cell corner *)
+Theorem C03_cell_and_fraction : forall t x, isfl t -> ffin t x -> (0 <= fval t x)%R ->
+  let a := f_sub flocq_ops t x (f_trunc flocq_ops t x) in
+  ffin t a /\ fval t a = (fval t x - IZR (f_toZ flocq_ops t x))%R /\ (0 <= fval t a < 1)%R /\
+  (IZR (f_toZ flocq_ops t x) <= fval t x < IZR (f_toZ flocq_ops t x) + 1)%R.
+Proof. exact model_cell. Qed.
+
 Print Assumptions C03_generic_branch_is_interpolant.
+Print Assumptions C03_cell_and_fraction.
 Print Assumptions C03_code_branch_generic_5.
 Print Assumptions C03_model_is_the_layer.
 Print Assumptions C03_lattice_exact_specialised.
